@@ -76,12 +76,40 @@ def container_root(body, tracer, op):
                                              '::as_mut_slice', 'Deref::deref', 'DerefMut::deref_mut'):
             o = tracer.origin(o['term']['args'][0])
             continue
+        proj = [e for e in o.get('p', []) if isinstance(e, dict)]
+        payload_only = len(proj) == 2 and 'downcast' in proj[0] and proj[1].get('f') == 0
+        if o['o'] == 'call' and call_matches(o['term'], 'Try>::branch', 'Try::branch') and payload_only and \
+                proj[0]['downcast'] == 'Continue':
+            # `x?`: the Continue payload is the Ok / Some payload of x
+            r = tracer.origin(o['term']['args'][0])
+            inner = _success_payload(body, tracer, r)
+            if inner is not None:
+                o = inner
+                continue
+            return o['l']       # the container lives in the (single) result of this `?`
+        if o['o'] == 'local' and payload_only and proj[0]['downcast'] in ('Ok', 'Some'):
+            inner = _success_payload(body, tracer, dict(o, p=[]))
+            if inner is not None:
+                o = inner
+                continue
         break
     if o['o'] in ('local', 'arg'):
         return o['l']
     if o['o'] in ('call', 'rvalue') and 'l' in o and not [e for e in o['p'] if isinstance(e, dict)]:
         return o['l']      # the local that holds the container (defined once)
     return None
+
+
+def _success_payload(body, tracer, r):
+    """r: origin of a Result/Option value held in a local with several definitions (a spliced helper's return slot): the
+    origin of the payload of its only Ok(..)/Some(..) definition, or None."""
+    if r['o'] != 'local' or [e for e in r.get('p', []) if isinstance(e, dict)]:
+        return None
+    succ = [d for d in tracer.defs.of(r['l']) if d[2] == 'assign' and d[3].get('r') == 'aggr' and d[3].get('variant') in ('Ok', 'Some')
+            and d[3].get('ops')]
+    if len(succ) != 1 or 'l' not in succ[0][3]['ops'][0]:
+        return None
+    return tracer.origin(succ[0][3]['ops'][0])
 
 
 class OptimiserAnchors:
